@@ -20,7 +20,8 @@ VERIF = Path(__file__).resolve().parent.parent
 SUITE = VERIF / "hunt" / "audit_2026-09-23-late"
 A, S, M, T = ("_backends/_asyncio.py", "_core/_synchronization.py", "streams/memory.py", "_core/_tasks.py")
 TRANSLATOR = {"lock": "translate_lock.py", "prims": "translate_prims.py", "cond": "translate_cond.py", "mem": "translate_mem.py",
-              "chain": "translate_chain.py", "timeouts": "translate_timeouts.py"}
+              "chain": "translate_chain.py", "timeouts": "translate_timeouts.py", "buffered": "translate_buffered.py",
+              "text": "translate_text.py"}
 MUTANTS: list = []
 
 
@@ -30,7 +31,7 @@ def m(tr, ident, rel, anchor, old, new, what):
 
 
 def load_suite():
-    for f in ("translator_mutants.py", "mutants_extra.py"):
+    for f in ("translator_mutants.py", "mutants_extra.py", "stream_mutants.py"):
         p = SUITE / f
         if p.exists():
             # the agent's own bookkeeping line at the end of the suite (a list `MUT` of its harness) is not ours
